@@ -319,8 +319,14 @@ fn gap_cases(args: &Args, rep: &mut Report, first_id: u64) -> Vec<Value> {
                     In::Naive(t) => *t,
                 };
                 let mut calls = Vec::new();
+                // the input as chrono-tz sees it: the driver skips the call when Python's tzdata shows
+                // another wall-clock reading for the same instant (the two databases then disagree
+                // about this very transition, and the input is not the one the expectation is for)
+                let mut dt_json = input.json();
+                dt_json["local"] = json!([n.year(), n.month(), n.day(), n.hour(), n.minute(), n.second()]);
+                let input_json = dt_json;
                 if let Ok(Some(x)) = stream::with_day_budget(BUDGET, || oh.next_change(n)) {
-                    calls.push(json!({"method": "next_change", "dt": input.json(), "expect": x.map(|u| out_dt_naive_ctx(u, Some(*tz))).unwrap_or(Value::Null)}));
+                    calls.push(json!({"method": "next_change", "dt": input_json.clone(), "expect": x.map(|u| out_dt_naive_ctx(u, Some(*tz))).unwrap_or(Value::Null)}));
                 }
                 if let Ok(Some(ivs)) = stream::with_day_budget(BUDGET, || oh.iter_from(n).take(3).collect::<Vec<_>>()) {
                     let list: Vec<Value> = ivs
@@ -330,7 +336,7 @@ fn gap_cases(args: &Args, rep: &mut Report, first_id: u64) -> Vec<Value> {
                             json!([out_dt_naive_ctx(iv.range.start, Some(*tz)), end, iv.kind.to_string(), iv.comments.iter().map(|c| c.to_string()).collect::<Vec<_>>()])
                         })
                         .collect();
-                    calls.push(json!({"method": "intervals", "dt": input.json(), "end": Value::Null, "expect": list, "take": 3}));
+                    calls.push(json!({"method": "intervals", "dt": input_json.clone(), "end": Value::Null, "expect": list, "take": 3}));
                 }
                 let s = oh.to_string();
                 let ctor = json!({"oh": text, "timezone": Value::Null, "country": Value::Null, "coords": Value::Null, "auto_country": "omit", "auto_timezone": "omit"});
